@@ -168,13 +168,20 @@ HetOK(c) == c.params = "none" => c.call = "kw"      \* without inputs the noise 
 MemberKinds == {"G", "F", "FL"}       \* FL = FixedNoise with learn_additional_noise
 MemberCfg(kind, op, call, params) ==
   Cfg(IF kind = "G" THEN "G" ELSE "F", op, kind = "FL", call, TRUE, FALSE, FALSE, params, FALSE, FALSE, 0, TRUE, "default", FALSE, <<>>, <<>>)
+\* noise: "none" = no noise keyword; "list" = [v1, v2]; "list_vN" = [v1, None]; "list_Nv" = [None, v2]; "list_NN" = [None, None]
+\* (a None entry means "this member uses its stored noise": it must not see any other member's entry)
+ListNoise == {"none", "list", "list_vN", "list_Nv", "list_NN"}
+EntryGiven(nz, k) == nz = "list" \/ (nz = "list_vN" /\ k = 1) \/ (nz = "list_Nv" /\ k = 2)
 ListCfgs ==
   {[cls |-> "List", members |-> <<k1, k2>>, op |-> op, noise |-> nz, argform |-> af] :
-     k1 \in MemberKinds, k2 \in MemberKinds, op \in {"call", "cond", "elp"}, nz \in {"none", "list"}, af \in {"bare", "tuple"}}
+     k1 \in MemberKinds, k2 \in MemberKinds, op \in {"call", "cond", "elp"}, nz \in ListNoise, af \in {"bare", "tuple"}}
 \* expected_log_prob takes (target, dist) tuples and hands its kwargs to every member unchanged: per-member noise is
 \* only defined for __call__ and forward; "tuple" adds the training inputs as a second positional argument
 ListOK(c) == /\ c.op = "elp" => (c.noise = "none" /\ c.argform = "tuple")
              /\ c.op = "cond" => c.argform = "bare"
+             \* a None entry is handed to the member as noise=None: only the fixed-noise kinds define that (stored noise);
+             \* GaussianLikelihood(noise=None) raises on its own, so the list cannot be asked for more
+             /\ \A k \in 1..2 : (c.noise # "none" /\ ~EntryGiven(c.noise, k)) => c.members[k] # "G"
 
 \* ---- the declarative side -----------------------------------------------------------------------
 \* With r = the diagonal of R (per output (i, a) for the multitask family: taskNT), the replay evaluates, in float64,
@@ -209,7 +216,7 @@ Expected1(c) == Res(Terms(c), ExpBatch(c))
 
 \* LikelihoodList: member k is applied to its own arguments, including its own noise
 ExpectedList(c) ==
-  [k \in 1..2 |-> Expected1(MemberCfg(c.members[k], c.op, IF c.noise = "list" THEN "kw" ELSE "none",
+  [k \in 1..2 |-> Expected1(MemberCfg(c.members[k], c.op, IF EntryGiven(c.noise, k) THEN "kw" ELSE "none",
                                       IF c.argform = "tuple" /\ c.op = "call" THEN "x" ELSE "none"))]
 
 Expected(c) == IF c.cls = "List" THEN ExpectedList(c) ELSE Expected1(c)
@@ -311,9 +318,9 @@ Code1(c) == Apply(c, ParamsOf(c), KwOf(c))
 CodeList(c) ==
   [k \in 1..2 |->
      LET extras == IF c.argform = "tuple" /\ c.op = "call" THEN <<"x">> ELSE <<>>
-         m == MemberCfg(c.members[k], c.op, IF c.noise = "list" THEN "kw" ELSE "none", IF extras = <<>> THEN "none" ELSE "x")
+         m == MemberCfg(c.members[k], c.op, IF EntryGiven(c.noise, k) THEN "kw" ELSE "none", IF extras = <<>> THEN "none" ELSE "x")
      IN IF c.noise = "none" THEN Apply(m, extras, NoKw)
-        ELSE IF "list_kwargs" \in Repairs THEN Apply(m, extras, Kw("call", <<>>))
+        ELSE IF "list_kwargs" \in Repairs THEN Apply(m, extras, IF EntryGiven(c.noise, k) THEN Kw("call", <<>>) ELSE NoKw)   \* noise=None: stored noise
         ELSE Apply(m, extras \o <<"dict">>, NoKw)]
 
 Code(c) == IF c.cls = "List" THEN CodeList(c) ELSE Code1(c)
